@@ -1,59 +1,78 @@
 """C03 A Deferred delivers one result; cancellation follows its protocol.
 
-Monitor: every history over {d.callback, d.errback, d.cancel, d.addBoth(returns `inner`) (once),
-inner.callback, inner.errback, inner.cancel} up to a bounded length is run on a fresh real pair
-(d, inner) for every canceller configuration {no canceller, fires callback, fires errback, does
-nothing, raises}.  Observed at the API boundary after EVERY action: the exception type raised by
-the call, canceller invocations, the results seen by recorder callbacks (first result of d, first
-result of inner, what d continues with after waiting on inner), and `called` / `result`.
+Monitor: every history up to a bounded length over a chain of n = 2 or 3 Deferreds d0, d1(, d2)
+with the actions {d_k.callback, d_k.errback, d_k.cancel for every k; wait_k = d_k.addBoth(returns
+d_{k+1}) followed by a recorder, at most once per k} is run on fresh real Deferreds for a set of
+canceller configurations {no canceller, fires callback, fires errback, does nothing, raises} per
+level.  With n = 3 a fired Deferred can wait on a Deferred that has itself fired and waits on a
+third one, so cancel() has to be forwarded through two levels.  Observed at the API boundary after
+EVERY action: the exception type raised by the call, canceller invocations (which Deferred), the
+results seen by recorder callbacks (first result of each d_k; what d_k continues with after its
+wait callback), and `called` / `result` of every Deferred.
 
 Oracle: a 3-state model per Deferred - U(nfired), F(ired), S(fired by a canceller-less cancel;
 swallow exactly one later callback/errback):
   callback/errback: U -> F and the result is delivered once; S -> F silently; F -> AlreadyCalledError.
   cancel on U: canceller called exactly once; if it fired the Deferred that result stands, else
       errback(CancelledError); no canceller -> errback(CancelledError) and state S.
-  cancel on F/S: if d is waiting on inner -> inner.cancel() (same rules); otherwise no effect at all.
+  cancel on F/S: if the Deferred is waiting on another one -> that one's cancel() (same rules,
+      hence recursively down the chain); otherwise no effect at all.
+plus the minimum of the chaining rules needed to know who waits on whom: a per-Deferred FIFO of
+{recorder, wait callback, continuation of the waiter}; a wait callback takes the result of an
+already fired, not waiting d_{k+1} or makes d_k wait; a continuation hands the result up.
 All values carry unique ids, so every delivery identifies the call that produced it.
 
 Guards: for a canceller that RAISES the statement is silent.  Accepted: the exception propagates
 out of cancel() and the Deferred stays unfired (what the code does), or it is swallowed and the
 Deferred fails with CancelledError; required in both cases: canceller called exactly once per
-cancel() on an unfired Deferred, no double delivery, later firing works.  The wait callback is
-added at most once per history (returning the same Deferred twice is C01's re-entrancy corner).
+cancel() on an unfired Deferred, no double delivery, later firing works.  Each wait callback is
+added at most once and only d_k -> d_{k+1} (no re-entrant returns, no user pauses: C01's ground).
 Unhandled-failure logging at GC is ignored.
 """
 import gc
-import itertools
 import os
 
 from vf.engines import explore
 
 LEVEL = "exploration"
 ENGINE = "core+E1-explore"
-TECHNIQUE = "runtime monitoring: 3-state firing/cancellation model per Deferred compared after every action"
-RULE = ("all histories of length L (every shorter one is a prefix and is checked step by step) over the 7 "
-        "actions {cb, eb, cancel, addwait(once), inner cb, inner eb, inner cancel} x 13 canceller "
-        "configurations (outer in {none, fires callback, fires errback, nothing, raises} x inner in {none, "
-        "nothing}, plus outer none x inner {fires callback, fires errback, raises}), L = 6 quick / 7 "
-        "thorough, enumerated directly; plus E1 depth-first exploration with state pruning to length 12 / "
-        "16.  A history is distinct by (configuration, action list) and non-trivial when it contains a "
-        "cancel or a firing attempt on an already fired Deferred.")
+TECHNIQUE = "runtime monitoring: 3-state firing/cancellation model per Deferred over a 2/3-level waiting chain, compared after every action"
+RULE = ("all histories of length L (every shorter one is a prefix and is checked step by step): "
+        "two-level chain (7 actions: cb/eb/cancel on d0 and d1, wait0 once) x 13 canceller configurations "
+        "at L=5 and x 3 configurations (outer none|nothing|fires callback, inner without canceller) at L=6 quick / x 13 at "
+        "L=6 and x 3 at L=7 thorough; three-level chain (11 actions: cb/eb/cancel on d0,d1,d2, wait0 and "
+        "wait1 once each) x 6 configurations at L=5 quick / L=6 thorough; all enumerated directly, "
+        "unpruned.  Plus E1 depth-first exploration with state pruning to length 12 / 16 over all 13 "
+        "two-level and 24 three-level configurations.  A history is distinct by (configuration, action "
+        "list) and non-trivial when it contains a cancel or a firing attempt on an already fired Deferred.")
 ASSUMPTIONS = [
-    "trusted base: the 3-state model in this module (about 60 lines)",
+    "trusted base: the 3-state model plus FIFO chaining rules in this module (about 90 lines)",
     "a raising canceller may either propagate (Deferred stays unfired) or be swallowed (CancelledError); the statement does not say",
-    "the pruned exploration hashes called/_suppressAlreadyCalled/paused/result kind/queue length of both real Deferreds plus the model state",
+    "the pruned exploration hashes called/_suppressAlreadyCalled/paused/result kind/queue length of the real Deferreds plus the model state",
 ]
 SHARDS = {"quick": 4, "thorough": 16}
-FLOORS = {"steps_compared": 100000, "already_called_errors": 10000, "swallowed_late_results": 1000,
-          "canceller_calls": 1000, "cancel_forwarded_to_inner": 1000, "cancel_no_effect": 1000,
-          "raising_canceller_calls": 100, "explore_states": 500}
+FLOORS = {"steps_compared": 1000000, "already_called_errors": 100000, "swallowed_late_results": 10000,
+          "canceller_calls": 10000, "cancel_forwarded_one_level": 5000, "cancel_forwarded_two_levels": 300,
+          "cancel_no_effect": 10000, "raising_canceller_calls": 1000, "explore_states": 5000,
+          "histories_3level": 100000, "histories_2level": 100000}
 READY = True
 
-ACTIONS = ("cb", "eb", "cancel", "addwait", "icb", "ieb", "icancel")
-CONFIGS = ([(o, i) for o in ("none", "cb", "eb", "nothing", "raises") for i in ("none", "nothing")]
-           + [("none", i) for i in ("cb", "eb", "raises")])
+KINDS = ("none", "cb", "eb", "nothing", "raises")
+CONFIGS2 = ([(o, i) for o in KINDS for i in ("none", "nothing")] + [("none", i) for i in ("cb", "eb", "raises")])
+CONFIGS2_LONG = [(o, "none") for o in ("none", "nothing", "cb")]
+CONFIGS3 = [("none", "none", "none"), ("none", "none", "nothing"), ("nothing", "nothing", "nothing"),
+            ("none", "nothing", "cb"), ("eb", "none", "raises"), ("raises", "cb", "eb")]
 NORES = "NORESULT"
 CANCELLED = "Cancelled"
+
+
+def actions_for(n):
+    out = []
+    for k in range(n):
+        out += ["cb%d" % k, "eb%d" % k, "cancel%d" % k]
+        if k + 1 < n:
+            out.append("wait%d" % k)
+    return tuple(out)
 
 
 class _V:
@@ -105,28 +124,31 @@ def _tw():
 
 
 class World:
-    """Real pair (d, inner) + model, compared after every action."""
+    """Real chain d0..d{n-1} + model, compared after every action."""
 
     def __init__(self, ctx, cfg):
         tw = _tw()
         self.ctx = ctx
         self.cfg = cfg
+        self.n = n = len(cfg)
+        self.acts = actions_for(n)
         self.tw = tw
         self.step = 0
         self.hist = []
         self.log = []        # real events of the current action
         self.bad = False
-        self.canc = {"d": cfg[0], "i": cfg[1]}
-        self.d = tw["D"](self._canceller("d")) if cfg[0] != "none" else tw["D"]()
-        self.inner = tw["D"](self._canceller("i")) if cfg[1] != "none" else tw["D"]()
-        self.d.addBoth(self._rec("rec0"))
-        self.inner.addBoth(self._rec("recin"))
+        D = tw["D"]
+        self.ds = [D(self._canceller(k)) if cfg[k] != "none" else D() for k in range(n)]
+        for k, d in enumerate(self.ds):
+            d.addBoth(self._rec("rec", k))
         # model
-        self.ms = {"d": "U", "i": "U"}
-        self.res = {"d": NORES, "i": NORES}
-        self.waitcb = "absent"   # absent | pending | done
-        self.waiting = False
+        self.ms = ["U"] * n
+        self.res = [NORES] * n
+        self.queue = [["rec"] for _ in range(n)]   # "rec" | "wait" | "after" | ("cont", waiter)
+        self.waiting = [False] * n                 # d_k waits on d_{k+1}
+        self.waitused = [False] * n
         self.exp = []
+        self.fwd = 0
 
     # ---- real side ---------------------------------------------------------------------------
     def rr(self, x):
@@ -143,17 +165,17 @@ class World:
             return ("D",)
         return NORES if x is NORES else ("?", repr(x)[:60])
 
-    def _rec(self, name):
+    def _rec(self, name, k):
         def rec(x):
-            self.log.append((name, self.rr(x)))
+            self.log.append((name, k, self.rr(x)))
             return x
         return rec
 
-    def _canceller(self, who):
+    def _canceller(self, k):
         def canceller(dd):
-            kind = self.canc[who]
-            self.log.append(("canceller", who))
-            tag = "c%s%d" % (who, self.step)
+            kind = self.cfg[k]
+            self.log.append(("canceller", k))
+            tag = "c%d.%d" % (k, self.step)
             if kind == "cb":
                 dd.callback(_V(tag))
             elif kind == "eb":
@@ -162,136 +184,137 @@ class World:
                 raise Boom(tag)
         return canceller
 
-    def _real(self, a):
-        d, inner, k = self.d, self.inner, self.step
-        if a == "cb":
-            d.callback(_V("d%d" % k))
-        elif a == "eb":
-            d.errback(_E("d%d" % k))
-        elif a == "cancel":
+    def _real(self, verb, k):
+        d = self.ds[k]
+        tag = "d%d.%d" % (k, self.step)
+        if verb == "cb":
+            d.callback(_V(tag))
+        elif verb == "eb":
+            d.errback(_E(tag))
+        elif verb == "cancel":
             d.cancel()
-        elif a == "addwait":
-            d.addBoth(lambda _: inner)
-            d.addBoth(self._rec("rec1"))
-        elif a == "icb":
-            inner.callback(_V("i%d" % k))
-        elif a == "ieb":
-            inner.errback(_E("i%d" % k))
         else:
-            inner.cancel()
+            nxt = self.ds[k + 1]
+            d.addBoth(lambda _: nxt)
+            d.addBoth(self._rec("after", k))
 
     # ---- model side --------------------------------------------------------------------------
-    def _deliver(self, who, r):
-        self.res[who] = r
-        if who == "d":
-            self.exp.append(("rec0", r))
-            self._progress()
-        else:
-            self.exp.append(("recin", r))
-            if self.waiting:
-                self.waiting = False
-                self.res["d"], self.res["i"] = r, None
-                self.exp.append(("rec1", r))
-
-    def _progress(self):
-        if self.waitcb == "pending" and self.ms["d"] != "U":
-            self.waitcb = "done"
-            if self.ms["i"] == "U":
-                self.waiting = True
-                self.res["d"] = ("D",)
+    def _run(self, k):
+        q = self.queue[k]
+        while q and not self.waiting[k] and self.ms[k] != "U":
+            it = q.pop(0)
+            if it == "rec" or it == "after":
+                self.exp.append((it, k, self.res[k]))
+            elif it == "wait":
+                j = k + 1
+                if self.ms[j] != "U" and not self.waiting[j]:
+                    self.res[k], self.res[j] = self.res[j], None
+                else:
+                    self.waiting[k] = True
+                    self.res[k] = ("D",)
+                    self.queue[j].append(("cont", k))
             else:
-                self.res["d"], self.res["i"] = self.res["i"], None
-                self.exp.append(("rec1", self.res["d"]))
+                o = it[1]
+                self.res[o], self.res[k] = self.res[k], None
+                self.waiting[o] = False
+                self._run(o)
 
-    def _fire(self, who, r):
-        st = self.ms[who]
+    def _deliver(self, k, r):
+        self.res[k] = r
+        self._run(k)
+
+    def _fire(self, k, r):
+        st = self.ms[k]
         if st == "U":
-            self.ms[who] = "F"
-            self._deliver(who, r)
+            self.ms[k] = "F"
+            self._deliver(k, r)
             return None
         if st == "S":
-            self.ms[who] = "F"
+            self.ms[k] = "F"
             _bump("swallowed_late_results")
             return None
         _bump("already_called_errors")
         return "AlreadyCalledError"
 
-    def _cancel(self, who, boomed):
+    def _cancel(self, k, boomed):
         """Returns True if a raising canceller ran (exception allowed)."""
-        if self.ms[who] != "U":
-            if who == "d" and self.waiting:
-                _bump("cancel_forwarded_to_inner")
-                return self._cancel("i", boomed)
+        if self.ms[k] != "U":
+            if self.waiting[k]:
+                self.fwd += 1
+                return self._cancel(k + 1, boomed)
             _bump("cancel_no_effect")
             return False
-        kind = self.canc[who]
-        tag = "c%s%d" % (who, self.step)
+        kind = self.cfg[k]
+        tag = "c%d.%d" % (k, self.step)
         if kind == "none":
-            self.ms[who] = "S"
-            self._deliver(who, CANCELLED)
+            self.ms[k] = "S"
+            self._deliver(k, CANCELLED)
             return False
-        self.exp.append(("canceller", who))
+        self.exp.append(("canceller", k))
         _bump("canceller_calls")
         if kind == "raises":
             _bump("raising_canceller_calls")
             if not boomed:  # swallowed: must then behave like a canceller that did nothing
-                self.ms[who] = "F"
-                self._deliver(who, CANCELLED)
+                self.ms[k] = "F"
+                self._deliver(k, CANCELLED)
             return True
-        self.ms[who] = "F"
-        self._deliver(who, ("V", tag) if kind == "cb" else ("F", tag) if kind == "eb" else CANCELLED)
+        self.ms[k] = "F"
+        self._deliver(k, ("V", tag) if kind == "cb" else ("F", tag) if kind == "eb" else CANCELLED)
         return False
 
-    def _model(self, a, boomed):
-        k = self.step
-        if a == "cb":
-            return self._fire("d", ("V", "d%d" % k)), False
-        if a == "eb":
-            return self._fire("d", ("F", "d%d" % k)), False
-        if a == "icb":
-            return self._fire("i", ("V", "i%d" % k)), False
-        if a == "ieb":
-            return self._fire("i", ("F", "i%d" % k)), False
-        if a == "addwait":
-            self.waitcb = "pending"
-            if self.ms["d"] == "U":
-                return None, False
-            self._progress()
+    def _model(self, verb, k, boomed):
+        tag = "d%d.%d" % (k, self.step)
+        if verb == "cb":
+            return self._fire(k, ("V", tag)), False
+        if verb == "eb":
+            return self._fire(k, ("F", tag)), False
+        if verb == "wait":
+            self.waitused[k] = True
+            self.queue[k] += ["wait", "after"]
+            self._run(k)
             return None, False
-        return None, self._cancel("d" if a == "cancel" else "i", boomed)
+        self.fwd = 0
+        boom_ok = self._cancel(k, boomed)
+        if self.fwd == 1:
+            _bump("cancel_forwarded_one_level")
+        elif self.fwd >= 2:
+            _bump("cancel_forwarded_two_levels")
+        return None, boom_ok
 
     # ---- E1 interface ------------------------------------------------------------------------
     def actions(self):
         if self.bad:
             return []
-        return [a for a in ACTIONS if a != "addwait" or self.waitcb == "absent"]
+        return [a for a in self.acts if a[0] != "w" or not self.waitused[int(a[-1])]]
 
     def apply(self, a):
         self.step += 1
         self.hist.append(a)
         self.log = []
         self.exp = []
+        self.fwd = 0
+        verb, k = a[:-1], int(a[-1])
         exc = None
         try:
-            self._real(a)
+            self._real(verb, k)
         except BaseException as e:  # noqa: B036
             if isinstance(e, (KeyboardInterrupt, SystemExit)):
                 raise
             exc = type(e).__name__
-        want_exc, boom_ok = self._model(a, exc == "Boom")
+        want_exc, boom_ok = self._model(verb, k, exc == "Boom")
         _bump("steps_compared")
         ok_exc = exc == want_exc or (boom_ok and exc == "Boom" and want_exc is None)
-        real_state = (self.d.called, self.rr(getattr(self.d, "result", NORES)),
-                      self.inner.called, self.rr(getattr(self.inner, "result", NORES)))
-        model_state = (self.ms["d"] != "U", self.res["d"], self.ms["i"] != "U", self.res["i"])
+        real_state = [(d.called, self.rr(getattr(d, "result", NORES))) for d in self.ds]
+        model_state = [(self.ms[i] != "U", self.res[i]) for i in range(self.n)]
         if ok_exc and self.log == self.exp and real_state == model_state:
             return
         self.bad = True
-        w = {"config": {"outer_canceller": self.cfg[0], "inner_canceller": self.cfg[1]}, "history": list(self.hist),
+        w = {"config": list(self.cfg), "history": list(self.hist),
              "failing_action": a, "expected_exception": want_exc, "raised": exc,
              "expected_events": self.exp, "observed_events": self.log,
              "expected_called_result": model_state, "observed_called_result": real_state,
-             "model_state_before_report": dict(self.ms)}
+             "model_states": list(self.ms), "model_waiting": list(self.waiting),
+             "cancel_forwarded_levels": self.fwd}
         if not ok_exc:
             if want_exc == "AlreadyCalledError":
                 key, what = "second-result-accepted", "a further callback/errback on a fired Deferred did not raise AlreadyCalledError"
@@ -302,40 +325,57 @@ class World:
         else:
             n_exp = sum(1 for e in self.exp if e[0] == "canceller")
             n_got = sum(1 for e in self.log if e[0] == "canceller")
-            if n_exp != n_got:
+            if verb == "cancel" and self.fwd >= 2 and not self.log:
+                key, what = "nested-cancel-not-forwarded", ("cancel() on a fired Deferred waiting on a fired Deferred that itself "
+                                                            "waits on an outstanding one had no effect")
+            elif n_exp != n_got:
                 key, what = "canceller-call-count", "canceller not called exactly once for cancel() on an unfired Deferred (or called on a fired one)"
-            elif a in ("cancel", "icancel"):
+            elif verb == "cancel":
                 key, what = "cancel-effect-mismatch", "the effect of cancel() differs from the cancellation protocol"
             else:
                 key, what = "delivery-mismatch", "results delivered to callbacks differ from the one-result model"
         self.ctx.violation(key, what, w)
 
     def state(self):
-        def real(x):
-            r = getattr(x, "result", NORES)
-            r = self.rr(r)
-            return (x.called, x._suppressAlreadyCalled, x.paused, r[0] if isinstance(r, tuple) else r, len(x.callbacks),
-                    x._canceller is not None)
-
         def kind(r):
             return r[0] if isinstance(r, tuple) else r
 
-        return (self.ms["d"], self.ms["i"], self.waitcb, self.waiting, kind(self.res["d"]), kind(self.res["i"]),
-                real(self.d), real(self.inner), self.bad)
+        out = [self.bad]
+        for i, x in enumerate(self.ds):
+            r = self.rr(getattr(x, "result", NORES))
+            out.append((self.ms[i], self.waiting[i], self.waitused[i], kind(self.res[i]),
+                        tuple(q if isinstance(q, str) else q[0] for q in self.queue[i]),
+                        x.called, x._suppressAlreadyCalled, x.paused, kind(r), len(x.callbacks), x._canceller is not None))
+        return tuple(out)
 
 
 def _swallow(f):
     return None
 
 
-def histories(length):
-    """All action lists of exactly `length` with addwait at most once."""
-    six = [a for a in ACTIONS if a != "addwait"]
-    for h in itertools.product(six, repeat=length):
-        yield h
-    for pos in range(length):
-        for h in itertools.product(six, repeat=length - 1):
-            yield h[:pos] + ("addwait",) + h[pos:]
+def histories(n, length):
+    """All action lists of exactly `length` over the n-level alphabet, each wait_k at most once."""
+    acts = actions_for(n)
+    h = []
+    used = set()
+
+    def rec():
+        if len(h) == length:
+            yield tuple(h)
+            return
+        for a in acts:
+            w = a[0] == "w"
+            if w:
+                if a in used:
+                    continue
+                used.add(a)
+            h.append(a)
+            yield from rec()
+            h.pop()
+            if w:
+                used.discard(a)
+
+    yield from rec()
 
 
 def run_history(ctx, cfg, h, origin):
@@ -345,19 +385,19 @@ def run_history(ctx, cfg, h, origin):
         if w.bad:
             break
     # after the last comparison: consume left-over failures so that GC does not log each of them
-    w.d.addErrback(_swallow)
-    w.inner.addErrback(_swallow)
+    for d in w.ds:
+        d.addErrback(_swallow)
     ctx.evaluated()
-    fired = {"d": False, "i": False}
+    fired = set()
     nontrivial = False
     for a in h:
-        who = "i" if a[0] == "i" else "d"
-        if a in ("cancel", "icancel"):
+        if a[0] == "w":
+            continue
+        if a[1] == "a":  # cancelN
             nontrivial = True
-            fired[who] = True
-        elif a != "addwait":
-            nontrivial = nontrivial or fired[who]
-            fired[who] = True
+        elif a[-1] in fired:
+            nontrivial = True
+        fired.add(a[-1])
     if nontrivial:
         ctx.count("nontrivial_histories")
         if origin != "enum" or ctx.counters["nontrivial_histories"] <= 30000:
@@ -365,44 +405,66 @@ def run_history(ctx, cfg, h, origin):
     return w
 
 
+def plan(ctx):
+    """[(configs, length)] enumerated unpruned, and the exploration depth."""
+    scale = float(os.environ.get("VERIF_SCALE", "1"))
+    if scale < 1:
+        return [(CONFIGS2, 4), (CONFIGS3[:2], 4)], 6, False
+    if ctx.quick:
+        return [(CONFIGS2, 5), (CONFIGS2_LONG, 6), (CONFIGS3, 5)], 12, True
+    return [(CONFIGS2, 6), (CONFIGS2_LONG, 7), (CONFIGS3, 6)], 16, True
+
+
+def explore_configs():
+    out = list(CONFIGS2) + list(CONFIGS3)
+    for a in ("none", "nothing", "raises"):
+        for b in ("none", "nothing", "cb"):
+            for c in ("none", "nothing", "eb"):
+                if (a, b, c) not in out:
+                    out.append((a, b, c))
+    return out
+
+
 def run(ctx):
     _tw()
-    scale = float(os.environ.get("VERIF_SCALE", "1"))
-    length = 6 if ctx.quick else 7
-    deep = 12 if ctx.quick else 16
-    if scale < 1:
-        length, deep = 4, 6
-    ctx.extra["enumerated_length"] = length
+    spaces, deep, complete = plan(ctx)
+    ctx.extra["enumerated"] = ["%d-level chain, %d configurations, length %d" % (len(c[0]), len(c), L) for c, L in spaces]
     ctx.extra["explored_length"] = deep
     n = 0
     k = 0
-    for cfg in CONFIGS:
-        ctx.seen("configs", "outer=%s inner=%s" % cfg)
-        for h in histories(length):
-            k += 1
-            if k % ctx.nshards != ctx.shard:
-                continue
-            w = run_history(ctx, cfg, h, "enum")
-            n += 1
-            if n % 5000 == 0:
-                gc.collect()
-            if n <= 2:
-                ctx.sample({"config": cfg, "history": h, "last_events": w.log, "model": dict(w.ms)})
+    for cfgs, length in spaces:
+        for cfg in cfgs:
+            ctx.seen("configs", "/".join(cfg))
+            first = True
+            cnt = 0
+            for h in histories(len(cfg), length):
+                k += 1
+                if k % ctx.nshards != ctx.shard:
+                    continue
+                w = run_history(ctx, cfg, h, "enum")
+                n += 1
+                cnt += 1
+                if n % 5000 == 0:
+                    gc.collect()
+                if first and cnt > 200 and len(ctx.samples) < 4:
+                    first = False
+                    ctx.sample({"config": cfg, "history": h, "last_events": w.log, "model": list(w.ms)})
+            ctx.count("histories_%dlevel" % len(cfg), cnt)
     ctx.count("enumerated_histories", n)
     ctx.exhaustive = None
-    # deeper, with state pruning (E1)
-    for ci, cfg in enumerate(CONFIGS):
+    # deeper, with state pruning (E1); configurations are dealt to shards
+    for ci, cfg in enumerate(explore_configs()):
+        ctx.seen("explored_configs", "/".join(cfg))
         explore.dfs(ctx, lambda cfg=cfg: World(ctx, cfg), deep, shard_depth=2)
         ctx.evaluated()
     gc.collect()
     _flush(ctx)
     ctx.count("gc_logged_unhandled_failures", _tw()["logged"][0])
-    if scale < 1:
+    if not complete:
         ctx.exhaustive = False
 
 
 def replay(ctx, w):
     x = w["witness"]
-    cfg = (x["config"]["outer_canceller"], x["config"]["inner_canceller"])
-    run_history(ctx, cfg, tuple(x["history"]), "replay")
+    run_history(ctx, tuple(x["config"]), tuple(x["history"]), "replay")
     _flush(ctx)
